@@ -2,6 +2,8 @@
 import z3
 
 from pyvc.book import Contract, Loop
+from pyvc import lemmas as L
+from pyvc import prelude as P
 from pyvc.engine import Cl
 from pyvc.values import Seq, Obj
 from pyvc import prelude
@@ -90,7 +92,8 @@ class GetPointsAndWeights(Contract):
         if f.get("spacing") is None:
             return [("spacing-defined", False)]
         return [("nwb", nwb >= 2), ("borders", z3.And(0 <= lo, lo <= up, up <= nwb)), ("npts", npts >= 0),
-                ("spacing", f["spacing"] * z3.ToReal(nwb - 1) == f["end"] - f["start"])]
+                ("spacing", f["spacing"] * z3.ToReal(nwb - 1) == f["end"] - f["start"]),
+                ("returned-points-are-the-window", npts == z3.If(z3.And(z3.Not(f["boundary"]), npts == 1), 1, up - lo))]
 
     def pre(self, S, env):
         return self.state(env["self"])
@@ -112,11 +115,81 @@ class GetPointsAndWeights(Contract):
                 Cl("weights-length", V(w.len()) == f["num_points"]),
                 Cl("coords-formula", z3.ForAll([i], z3.Implies(z3.And(z3.Not(single), i >= 0, i < up - lo),
                                                                z3.Select(c.arr, i) * z3.ToReal(nwb - 1) == f["start"] * z3.ToReal(nwb - 1) + z3.ToReal(i + lo) * (f["end"] - f["start"])))),
-                Cl("frame", z3.And(*[env["self"].fields[k] == f[k] for k in ("a", "b", "start", "end", "boundary", "num_points", "num_points_with_boundary", "lowerBorder", "upperBorder")]))]
+                Cl("frame", z3.And(*[env["self"].fields[k] == f[k] for k in ("a", "b", "start", "end", "boundary", "num_points", "num_points_with_boundary", "lowerBorder", "upperBorder")])),
+                # every returned weight is the composite trapezoidal weight of its point (the list comprehension over range(num_points) is evaluated for an
+                # arbitrary index against the contract of get_1d_weight)
+                Cl("weights-are-the-composite-trapezoidal-weights", z3.ForAll([i], z3.Implies(z3.And(i >= 0, i < f["num_points"], window(f)),
+                                                                                            z3.Select(w.arr, i) == trap_weight(f, i))), prop=True)]
+
+
+def window(f):
+    """the returned points are exactly the window [lowerBorder, upperBorder) of the equidistant points of the box (or the single midpoint)"""
+    return f["num_points"] == z3.If(z3.And(z3.Not(f["boundary"]), f["num_points"] == 1), 1, f["upperBorder"] - f["lowerBorder"])
+
+
+def trap_weight(f, index):
+    g = index + f["lowerBorder"]
+    return z3.If(z3.And(z3.Not(f["boundary"]), f["num_points"] == 1), f["spacing"],
+                 f["spacing"] * z3.If(z3.Or(g == 0, g == f["num_points_with_boundary"] - 1), z3.RealVal("1/2"), z3.RealVal(1)))
 
 
 def V(x):
     return z3.IntVal(x) if isinstance(x, int) else x
+
+
+def prod_array(w, c):
+    i = z3.Int("pai")
+    return z3.Lambda([i], z3.Select(w, i) * z3.Select(c, i))
+
+
+def trap_pointwise(w, n, h):
+    i = z3.Int("tpi")
+    return z3.ForAll([i], z3.Implies(z3.And(i >= 0, i < n), z3.Select(w, i) == h * z3.If(z3.Or(i == 0, i == n - 1), z3.RealVal("1/2"), z3.RealVal(1))), patterns=[z3.Select(w, i)])
+
+
+def equidistant(c, n, h, start):
+    i = z3.Int("eqi")
+    return z3.ForAll([i], z3.Implies(z3.And(i >= 0, i < n), z3.Select(c, i) == start + z3.ToReal(i) * h), patterns=[z3.Select(c, i)])
+
+
+def trap_sum_stmt(w, n, h):
+    """n >= 2 points with weights h/2, h, ..., h, h/2  ==>  they sum to (n-1) h"""
+    return z3.Implies(z3.And(n >= 2, trap_pointwise(w, n, h)), P.SUMR(w, 0, n) == z3.ToReal(n - 1) * h)
+
+
+def trap_moment_stmt(w, c, n, h, start):
+    """... and with equidistant points x_i = start + i h:  2 sum w_i x_i == end^2 - start^2,  end = start + (n-1) h"""
+    end = start + z3.ToReal(n - 1) * h
+    return z3.Implies(z3.And(n >= 2, trap_pointwise(w, n, h), equidistant(c, n, h, start)), 2 * P.SUMR(prod_array(w, c), 0, n) == end * end - start * start)
+
+
+def _trap_sum_lemma():
+    w = z3.Const("w", z3.ArraySort(I, R))
+    n, k = z3.Ints("n k")
+    h = z3.Real("h")
+    ax = P.sum_axioms()
+    hyp = [n >= 2, trap_pointwise(w, n, h)]
+    S_ = lambda m: P.SUMR(w, 0, m)  # noqa
+    closed = lambda m: (z3.ToReal(m) - z3.RealVal("1/2")) * h  # noqa
+    return [(ax + hyp, S_(z3.IntVal(1)) == closed(z3.IntVal(1))),
+            (ax + hyp + [k >= 1, k < n - 1, S_(k) == closed(k)], S_(k + 1) == closed(k + 1)),
+            (ax + hyp + [S_(n - 1) == closed(n - 1)], S_(n) == z3.ToReal(n - 1) * h)]
+
+
+def _trap_moment_lemma():
+    w, c = z3.Const("w", z3.ArraySort(I, R)), z3.Const("c", z3.ArraySort(I, R))
+    n, k = z3.Ints("n k")
+    h, st = z3.Reals("h st")
+    ax = P.sum_axioms()
+    hyp = [n >= 2, trap_pointwise(w, n, h), equidistant(c, n, h, st)]
+    pw = prod_array(w, c)
+    T = lambda m: P.SUMR(pw, 0, m)  # noqa
+    kr = lambda m: z3.ToReal(m)  # noqa
+    closed = lambda m: h * st * (kr(m) - z3.RealVal("1/2")) + h * h * (kr(m) - 1) * kr(m) / 2  # noqa
+    end = st + kr(n - 1) * h
+    return [(ax + hyp, T(z3.IntVal(1)) == closed(z3.IntVal(1))),
+            (ax + hyp + [k >= 1, k < n - 1, T(k) == closed(k)], T(k + 1) == closed(k + 1)),
+            (ax + hyp + [T(n - 1) == closed(n - 1)], 2 * T(n) == end * end - st * st)]
 
 
 class SetCurrentArea(Contract):
@@ -158,6 +231,16 @@ class SetCurrentArea(Contract):
                 Cl("as-many-weights-as-points", V(w.len()) == npts, prop=True),
                 Cl("points-inside-the-sub-box", z3.ForAll([i], z3.Implies(z3.And(i >= 0, i < npts, multi),
                                                                           z3.And(z3.Select(c.arr, i) >= old["start"], z3.Select(c.arr, i) <= old["end"]))), prop=True),
+                # weights: each returned point keeps the composite trapezoidal weight of its position among ALL equidistant points of the box (so switching the
+                # boundary points off leaves the remaining weights unchanged); with boundary points they sum to the box length and integrate x exactly
+                Cl("weights-are-the-composite-trapezoidal-weights-of-the-global-positions",
+                   z3.ForAll([i], z3.Implies(z3.And(i >= 0, i < npts), z3.Select(w.arr, i) == trap_weight(f, i))), prop=True),
+                Cl("with-boundary-points-the-weights-sum-to-the-box-length",
+                   z3.Implies(f["boundary"], P.SUMR(w.arr, 0, npts) == old["end"] - old["start"]), prop=True,
+                   by=[("trapezoid-weights-sum", trap_sum_stmt(w.arr, npts, f["spacing"]))]),
+                Cl("with-boundary-points-the-rule-integrates-x-exactly",
+                   z3.Implies(f["boundary"], 2 * P.SUMR(prod_array(w.arr, c.arr), 0, npts) == old["end"] * old["end"] - old["start"] * old["start"]), prop=True,
+                   by=[("trapezoid-first-moment", trap_moment_stmt(w.arr, c.arr, npts, f["spacing"], old["start"]))]),
                 Cl("boundary-off-drops-exactly-global-boundary-points",
                    z3.Implies(z3.Not(f["boundary"]), z3.And(lo == z3.If(z3.And(isclose(old["start"], f["a"]), npts < nwb), 1, 0),
                                                             f["upperBorder"] == z3.If(z3.And(isclose(old["end"], f["b"]), npts < nwb), nwb - 1, z3.If(npts < nwb, nwb, npts)))), prop=True),
@@ -167,7 +250,8 @@ class SetCurrentArea(Contract):
 
 
 CONTRACTS = [LevelToNumPoints(), GetPointsAndWeights(), SetCurrentArea()]
-LEMMAS = []
+LEMMAS = [L.SmtLemma("trapezoid-weights-sum", _trap_sum_lemma, note="h/2 + h + ... + h + h/2 == (n-1) h (induction over the partial sums with their closed form)"),
+          L.SmtLemma("trapezoid-first-moment", _trap_moment_lemma, note="the composite trapezoidal rule on equidistant points integrates x exactly (induction, polynomial identities)")]
 ASSUMPTIONS = ["np.linspace(a,b,n)[i] == a + i*(b-a)/(n-1); slices [lo:up] keep order (prelude contracts)",
                "weights of get_1D_level_weights: only the length is verified here (comprehension over a symbolic range); values by layer B",
                "machine floats treated as reals (A-REAL); math.isclose modelled exactly with rel_tol 1e-9"]
